@@ -22,6 +22,7 @@ RULE = (
     "recursively under the C01 oracle, count, all 96 mappings, labels < n, stored values, attached set = first n), file structure (5+n CVALs, "
     "8(5+n) CMID bytes, label chunks only for indices < n, via independent chunk parsing), second cycle byte-identical, and every loaded user controller whose mapping chain resolves to a spec'd controller shows its stored value read under that controller's declared range; plus edit histories (load - edit in place, also inside nested embedded projects, optionally saving in between - save - load) under C06's metamorphic oracle. non-trivial = n >= 1 with a "
     "mapping onto a non-plain-range target, or depth >= 1"
+    ' Also (added while the seeded-change rounds of DESIGN section 9 ran): Also: long / default-looking / one-word labels, label aliases (read, and written where safe), failed saves in the past, project contexts written as older versions.'
 )
 ASSUMPTIONS = [
     "mapping 'controller' is the 0-based index the library itself uses when it resolves a mapping",
